@@ -194,7 +194,8 @@ func calcOutflow(timestep int, inflow, lateral, bias, prevQi, prevOutflow, prevS
 	if delta < massBalanceLimit {
 		//Solution is the maximum possible index flow
 		qi = maxQI
-		outflow = math.Max(0.0, initialFluxMax-netEvaporationFlux)
+		// the maximum possible index flow drains everything that is available, lateral inflow included (as maxQI assumes)
+		outflow = math.Max(0.0, initialFluxMax-netEvaporationFlux+lateral)
 
 		delta = 0.0
 		storage = math.Max((prevStorage + (inflow+lateral-netEvaporationFlux-outflow)*duration), 0.0)
